@@ -124,6 +124,7 @@ func serveRealMain(args []string) {
 		ts := make([]int64, len(res.Events))
 		for i, e := range res.Events {
 			ts[i] = e.Timestamp
+			checkEvent(tags, e)
 		}
 		return ts, nil
 	}
@@ -157,7 +158,7 @@ func serveRealMain(args []string) {
 			}
 			evs := make([]*api.LogEvent, len(c.Ts))
 			for i, t := range c.Ts {
-				evs[i] = &api.LogEvent{Timestamp: t, Message: fmt.Sprintf("e%d", t)}
+				evs[i] = eventFor(t)
 			}
 			var wr api.WriteResult
 			err := cl.Write(ctx, c.Tags, "", evs, &wr)
@@ -220,13 +221,13 @@ func serveRealMain(args []string) {
 				pv := PartView{Tags: t}
 				ex, err := exists(t)
 				if err != nil {
-					a.Ok, a.Err = false, err.Error()
+					ex, pv.Err = true, err.Error()
 				}
 				if ex {
 					pv.Exists = true
 					evs, err := read(t, nil)
 					if err != nil {
-						a.Ok, a.Err = false, err.Error()
+						pv.Err = err.Error()
 					}
 					pv.Events = evs
 					a.Count++
@@ -243,12 +244,16 @@ func serveRealMain(args []string) {
 				}
 			}
 			sort.Strings(a.Pipes)
+			a.Bad = takeBad()
 			out.Encode(a)
 		case "range":
 			rg := [2]int64{c.Lo, c.Hi}
 			evs, err := read(c.Tags, &rg)
-			a := ans(err)
-			a.Events = evs
+			a := Ans{Ok: true, Events: evs}
+			a.Bad = takeBad()
+			if err != nil {
+				a.Bad = append(a.Bad, "RANGE query on "+c.Tags+" fails: "+err.Error())
+			}
 			out.Encode(a)
 		case "stop":
 			// what the logrange binary does on SIGTERM: the context of server.Start is cancelled, Start shuts every component
